@@ -124,6 +124,12 @@ func checkC10(run *Run, res *Result) {
 			}
 		}
 	}
+	if run.Cfg.Prop == "C11" {
+		// the rebalance scenario (dynamic membership over the API, assignments handed to SetInfo): judged here only
+		// for "a numbering is announced only when it differs"; how the stream copes with the announcements is C11's
+		res.probe("announcement-filter-judged:" + variant)
+		return
+	}
 	if res.DeathKind == "library-failstop" || res.DeathKind == "runtime-panic" {
 		res.violate("C10", "R4-member-terminated", len(run.Evs), "plain", "%s: the process was terminated although no fault was injected: %s", variant, res.FailStop)
 	}
